@@ -69,13 +69,14 @@ class NapoelonDocstringParser:
             docstring, is_attribute=isinstance(self.obj, Attribute)
         )
 
-        parsed_doc = self._parse_docstring_obj(docstring_obj, errors)
+        parsed_doc = self._parse_docstring_obj(docstring_obj, errors, self.obj)
 
         return parsed_doc
 
     @staticmethod
     def _parse_docstring_obj(
-        docstring_obj: GoogleDocstring, errors: List[ParseError]
+        docstring_obj: GoogleDocstring, errors: List[ParseError], 
+        obj: Optional[Documentable] = None
     ) -> ParsedDocstring:
         """
         Helper method to parse L{GoogleDocstring} or L{NumpyDocstring} objects.
@@ -84,4 +85,4 @@ class NapoelonDocstringParser:
         for warn, lineno in docstring_obj.warnings:
             errors.append(ParseError(warn, lineno, is_fatal=False))
         # Get the converted reST string and parse it with docutils
-        return processtypes(restructuredtext.parse_docstring)(str(docstring_obj), errors)
+        return processtypes(restructuredtext.get_parser(obj))(str(docstring_obj), errors)
